@@ -24,10 +24,10 @@ EXPLANATION = (
     '= byte 9k, name = C string of bytes 9k+1..9k+8; AT5 zone records run from 0 while the position is below the announced length with number = byte p, '
     'length = byte p+1, name = UTF-8 of the next `length` bytes, next record right after, and a name passing the announced length raises; console version = '
     "UTF-8 of bytes 2..2+byte 1 split at '|' (AT4) / ',' (AT5), update flag = byte 0 != 0; AC error text = UTF-8 of bytes 2..2+byte 1 exactly when byte 1 "
-    "!= 0, else absent; C strings stop at the first NUL. The transcription of the vendor tables is QA'd on the vendor's example frames first."
+    "!= 0, else absent; C strings stop at the first NUL. R7 records are decoded independently: every local a record is built from is assigned in the same loop iteration on every path (reaching definitions with the back edge cut), so an absent optional part never inherits the previous record's value. The transcription of the vendor tables is QA'd on the vendor's example frames first."
 )
 ASSUMPTIONS = ["vendor tables transcribed in sa/spec/tables.py (DESIGN Appendix A) are the oracle", "struct.unpack_from slot layout as computed from the literal format string"]
-FLOORS = {"C05.R1": 60, "C05.R2": 12, "C05.R3": 6, "C05.R4": 5, "C05.R5": 7, "C05.R6": 8}
+FLOORS = {"C05.R1": 60, "C05.R2": 12, "C05.R3": 6, "C05.R4": 5, "C05.R5": 7, "C05.R6": 8, "C05.R7": 6}
 
 
 def r1_ability(ctx):
@@ -35,6 +35,7 @@ def r1_ability(ctx):
     for key, spec in T.STATUS.items():
         if "ac_ability" in str(key):
             check_decoder(ctx, key, spec)
+    r7(ctx, only=("ac_ability",))
 
 
 def run(ctx):
@@ -42,6 +43,75 @@ def run(ctx):
         check_decoder(ctx, key, spec)
     r5(ctx)
     r6(ctx)
+    r7(ctx)
+
+
+def r7(ctx, only=None):
+    """Records are decoded independently of one another: a local that a record is built from and that is assigned inside the
+    record loop is assigned on every path of the *same* iteration before the record is built (reaching definitions with the back
+    edge cut).  Otherwise an optional part that is absent in one record silently inherits the value decoded for the previous
+    record.  Instances: every loop of every decode() of the message modules that builds a record inside the loop."""
+    from ..q import Fn, iter_functions
+
+    R = "C05.R7"
+    n_loops = 0
+    for m in ctx.repo.modules.values():
+        if not (m.name.startswith("pyairtouch.at4.comms.x") or m.name.startswith("pyairtouch.at5.comms.x")):
+            continue
+        if only is not None and not any(o in m.name for o in only):
+            continue
+        for qual, fnode in iter_functions(m):
+            if not qual.endswith("Decoder.decode") or ".<locals>." in qual:
+                continue
+            f = Fn(ctx.repo, m, qual)
+            g = f.cfg
+            heads = [n for n in g.nodes if (n.kind == "join" and n.label == "while") or n.kind == "for"]
+            for h in heads:
+                loop_ast = h.ast
+                body_ids = {id(x) for st in loop_ast.body for x in ast.walk(st)}
+                in_loop = [n for n in g.nodes if n.ast is not None and id(n.ast) in body_ids and n.kind == "stmt"]
+                # record constructions inside this loop (a call of a dataclass of the package)
+                builds = []
+                for n in in_loop:
+                    for c in walk_no_nested(n.ast):
+                        if isinstance(c, ast.Call) and dotted(c.func):
+                            ci = ctx.repo.resolve_class(m, c.func)
+                            if ci is not None and ci.is_dataclass and not ci.is_enum():
+                                builds.append((n, c))
+                if not builds:
+                    continue
+                n_loops += 1
+                assigned = {}
+                for n in in_loop:
+                    for name in g.defs_of(n):
+                        assigned.setdefault(name, []).append(n)
+                if h.kind == "for":
+                    for t in ast.walk(loop_ast.target):
+                        if isinstance(t, ast.Name):
+                            assigned.pop(t.id, None)  # bound afresh by the loop itself
+                stale = []
+                for n, c in builds:
+                    used = {x.id for x in ast.walk(c) if isinstance(x, ast.Name) and isinstance(x.ctx, ast.Load)}
+                    for v in sorted(used & set(assigned)):
+                        defs = [d.id for d in assigned[v] if d.id != n.id]
+                        if not defs:
+                            continue
+                        # cursors and accumulators (`buffer = buffer[n:]`, `offset += n`) carry their value on purpose
+                        def _selfref(d, v=v):
+                            a_ = d.ast
+                            if isinstance(a_, ast.AugAssign):
+                                return True
+                            val = getattr(a_, "value", None)
+                            return val is not None and any(isinstance(x, ast.Name) and x.id == v for x in ast.walk(val))
+                        if all(_selfref(d) for d in assigned[v]):
+                            continue
+                        # is the construction reachable from the loop head without passing a definition of v made in this iteration?
+                        if not g.all_paths_pass(h.id, [n.id], defs, None):
+                            stale.append((v, n))
+                lab = f"{m.name.split('pyairtouch.')[1]}.{qual.split('.')[0]}:loop@{qual.split('.')[-1]}"
+                ctx.check(not stale, R, f"{lab}:per-record-state-is-fresh", m, (stale[0][1].ast if stale else loop_ast), "every local a record is built from is assigned in the same iteration on every path (nothing is carried over from the previous record)", "; ".join(f"`{v}` can reach the record built at line {n.lineno} with the value of an earlier iteration" for v, n in stale[:3]))
+    if only is None:
+        ctx.require(n_loops >= 6, f"C05.R7: only {n_loops} record loops found in the decoders")
 
 
 def slot_map(notes):
